@@ -55,6 +55,26 @@ def base_bundle(plan, seqno):
     return rfc9171.encode_bundle(pri, blocks)
 
 
+def _crc_spans(dec):
+    ''' Octet spans of the CRC-type items and CRC-value items of the CRC-carrying blocks of a decoded (clean) bundle. '''
+    import cbor2
+    out = []
+    for blk in [dec['primary']] + dec['blocks']:
+        if not blk['crc_type']:
+            continue
+        (beg, end) = blk['range']
+        width = 2 if blk['crc_type'] == 1 else 4
+        out.append(('crc_field', (end - width - 1, end)))
+        if 'btsd_range' in blk:
+            size = len(blk['btsd'])
+            head = 1 if size < 24 else 2 if size < 256 else 3 if size < 65536 else 5
+            pos = blk['btsd_range'][0] - head - 1
+        else:
+            pos = beg + 2 + len(cbor2.dumps(blk['flags']))
+        out.append(('crc_type', (pos, pos + 1)))
+    return out
+
+
 def _is_admin_out(data):
     ''' Whether a transmitted bundle is an administrative record; an output the reference decoder rejects is not one. '''
     try:
@@ -128,6 +148,9 @@ def _drive(run, plan, har):
             stats['flip.in_primary'] = stats.get('flip.in_primary', 0) + 1
         if dec0['blocks'][-1]['range'][0] <= bytepos < dec0['blocks'][-1]['range'][1]:
             stats['flip.in_payload_block'] = stats.get('flip.in_payload_block', 0) + 1
+        for (where, span) in _crc_spans(dec0):
+            if span[0] <= bytepos < span[1]:
+                stats['flip.in_' + where] = stats.get('flip.in_' + where, 0) + 1
         try:
             cdec = rfc9171.decode_bundle(corrupt)
             bad = [blk for blk in [cdec['primary']] + cdec['blocks'] if not blk['crc_ok']]
